@@ -54,6 +54,10 @@ CLAIMED = {
          "Every module that compiles - well-scoped programs, closure-heavy programs and arbitrary card trees - is decoded front to back by a verifier with its own opcode and operand-width table (cross-checked against the crate's table through a hook) and checked for: known opcodes, complete operands, final Exit, jump/label/trace targets on instruction starts, labelled function/closure handles with consistent arity, complete UTF-8 strings, local/upvalue/global index ranges, id<->name bijection, trace coverage, and agreement with the crate's disassembler walk. All bytes of all outputs, not only executed paths.",
          "Trusts the verifier's own table (47 entries, cross-checked at start-up); arity of the named definition is checked for consistency across uses, not against the source.",
          "DESIGN.md section 4, C10"),
+ "C11": ("exploration", "round-trip and differential testing over generated modules, compiled programs and runtime values (proptest-driven)",
+         "Generated modules (well-scoped programs incl. >16 globals, arbitrary card trees) are written to JSON and YAML, read back and compiled: the result must be byte-identical / map-equal to compiling the original (or fail with the same variant). Every compiled program is sent through JSON, CBOR and bincode: the decoded program must be field-wise equal as maps, pass the independent bytecode verifier and run to the same observation. Generated values (nested tables up to 60 entries, -0.0, subnormals) go value -> OwnedValue -> each format -> OwnedValue' -> insert into a fresh VM and must be deeply equal with order preserved.",
+         "NaN / infinities excluded (not representable in serde_json); card ids are not serialized by design.",
+         "DESIGN.md section 4, C11"),
  "C12": ("exploration", "proptest-driven model-based testing of operation histories against std HashMap, with controlled-hash keys and fail-at-n allocation fault sweeps",
          "Random histories (<=200 ops) over keys whose hash bytes the generator chooses (collision groups for every capacity of the growth sequence, wrap-around homes, equal-hash twins, the reserved hash 0), compared with std::collections::HashMap after every operation including full get/contains/iter of every key ever used, a per-instance drop ledger and an allocator ledger; one third of the cases re-run the history once per allocation index with that allocation failing (exhaustive over the single failure points of that history). Search, not proof.",
          "Trusts std HashMap as reference and the 32-bit FNV/home formulas only for *choosing* keys (a wrong formula weakens coverage labels, not soundness). Clone is exempt from failure injection.",
